@@ -1,10 +1,11 @@
 import RsslVerif.Model.Parse
 import RsslVerif.Model.ParseFull
+import RsslVerif.Model.ParseStmt
 import RsslVerif.Driver.Util
 /-! Line-protocol front end of the C09 model: `C09.rt <ctx> <tree>` ↦ `<printed text> ==> <re-read tree | ERR:parse>`. -/
 namespace RsslVerif.Driver.C09
 open RsslVerif.Gen.FmtTables RsslVerif.Gen.ParseTables RsslVerif.Gen.SyntaxTables RsslVerif.Model.Format RsslVerif.Model.Parse
-open RsslVerif.Model.FormatFull RsslVerif.Model.ParseFull
+open RsslVerif.Model.FormatFull RsslVerif.Model.ParseFull RsslVerif.Model.FormatStmt RsslVerif.Model.ParseStmt
 
 inductive SExp where
   | atom (s : String)
@@ -451,6 +452,301 @@ def handleRtFull (ctx : String) (e : XExpr) : String :=
         | _ => "ERR:parse"
     render pieces ++ " ==> " ++ back
 
+/-! ## Statements -/
+
+/-- three-valued reader result: malformed / outside the model / value -/
+abbrev Rd (α : Type) := Option (Option α)
+
+def rdMap {α β : Type} (f : α → β) : Rd α → Rd β := fun o => o.map (fun x => x.map f)
+
+def toTyNoDecl (s : SExp) : Rd (List TypeMod × String × TArgs) :=
+  match toTy s with
+  | some (some (.mk m n a .empty)) => some (some (m, n, a))
+  | some (some _) => none
+  | some none => some none
+  | none => none
+
+partial def toDecl : SExp → Rd Decl
+  | .list [.atom "d-empty"] => some (some .empty)
+  | .list (.atom "d-name" :: parts) => (scopedName parts).map fun n => some (.name n)
+  | .list [.atom "d-ptr", .list quals, d] =>
+    match sequenceOpt (quals.map fun | .atom q => modOfWrapper q | _ => none), toDecl d with
+    | some qs, some (some d) => some (some (.ptr qs d))
+    | some _, some none => some none
+    | _, _ => none
+  | .list [.atom "d-ref", d] => rdMap Decl.ref (toDecl d)
+  | .list [.atom "d-arr", d, e] =>
+    match toDecl d, toX e with
+    | some (some d), some (some e) => some (some (.arr d e))
+    | some _, some _ => some none
+    | _, _ => none
+  | .list [.atom "d-arrn", d] => rdMap Decl.arrN (toDecl d)
+  | .list [.atom "d-attr"] => some none
+  | _ => none
+
+mutual
+partial def toInit : SExp → Rd Init
+  | .list (.atom "agg" :: items) => rdMap Init.agg (toInits items)
+  | .list [.atom "static-sampler"] => some none
+  | s => rdMap Init.expr (toX s)
+partial def toInits : List SExp → Rd Inits
+  | [] => some (some .nil)
+  | x :: r =>
+    match toInit x, toInits r with
+    | some (some i), some (some l) => some (some (.cons i l))
+    | some _, some _ => some none
+    | _, _ => none
+end
+
+def toInitDecl : SExp → Rd InitDecl
+  | .list [.atom "idecl", d, .list [.atom "noinit"]] => rdMap (fun d => ⟨d, none⟩) (toDecl d)
+  | .list [.atom "idecl", d, .list [.atom "init", i]] =>
+    match toDecl d, toInit i with
+    | some (some d), some (some i) => some (some ⟨d, some i⟩)
+    | some _, some _ => some none
+    | _, _ => none
+  | .list (.atom "idecl" :: _ :: _ :: [.list [.atom "annot"]]) => some none
+  | _ => none
+
+def toList {α : Type} (f : SExp → Rd α) : List SExp → Rd (List α)
+  | [] => some (some [])
+  | x :: r =>
+    match f x, toList f r with
+    | some (some a), some (some l) => some (some (a :: l))
+    | some _, some _ => some none
+    | _, _ => none
+
+def toVarDef : SExp → Rd VarDef
+  | .list (.atom "vd" :: ty :: ds) =>
+    match toTyNoDecl ty, toList toInitDecl ds with
+    | some (some (m, n, a)), some (some l) => if l.isEmpty then none else some (some ⟨m, n, a, l⟩)
+    | some _, some _ => some none
+    | _, _ => none
+  | _ => none
+
+def toAttr : SExp → Rd Attr
+  | .list [.atom "attr", .atom k, .list (.atom "n" :: parts), .list args] =>
+    match scopedName parts, toXArgs args with
+    | some n, some (some a) => some (some ⟨n, a, k == "2"⟩)
+    | some _, some none => some none
+    | _, _ => none
+  | _ => none
+
+def toOptE : SExp → Rd (Option XExpr)
+  | .list [.atom "none"] => some (some none)
+  | .list [.atom "some", e] => rdMap some (toX e)
+  | _ => none
+
+mutual
+partial def toStmt : SExp → Rd Stmt
+  | .list [.atom "st", .list attrs, k] =>
+    match toList toAttr attrs, toKind k with
+    | some (some a), some (some k) => some (some (.mk a k))
+    | some _, some _ => some none
+    | _, _ => none
+  | _ => none
+partial def toKind : SExp → Rd Kind
+  | .list [.atom "empty"] => some (some .empty)
+  | .list [.atom "expr", e] => rdMap Kind.expr (toX e)
+  | .list [.atom "var", v] => rdMap Kind.var (toVarDef v)
+  | .list (.atom "block" :: ss) => rdMap Kind.block (toStmts ss)
+  | .list [.atom "if", c, t] =>
+    match toX c, toStmt t with
+    | some (some c), some (some t) => some (some (.ifS c t))
+    | some _, some _ => some none
+    | _, _ => none
+  | .list [.atom "ifelse", c, t, e] =>
+    match toX c, toStmt t, toStmt e with
+    | some (some c), some (some t), some (some e) => some (some (.ifElse c t e))
+    | some _, some _, some _ => some none
+    | _, _, _ => none
+  | .list [.atom "for", i, c, n, b] =>
+    let init : Rd ForInit := match i with
+      | .list [.atom "none"] => some (some .empty)
+      | .list [.atom "e", e] => rdMap ForInit.expr (toX e)
+      | .list [.atom "d", v] => rdMap ForInit.decl (toVarDef v)
+      | _ => none
+    match init, toOptE c, toOptE n, toStmt b with
+    | some (some i), some (some c), some (some n), some (some b) => some (some (.forS i c n b))
+    | some _, some _, some _, some _ => some none
+    | _, _, _, _ => none
+  | .list [.atom "while", c, b] =>
+    match toX c, toStmt b with
+    | some (some c), some (some b) => some (some (.whileS c b))
+    | some _, some _ => some none
+    | _, _ => none
+  | .list [.atom "do", b, c] =>
+    match toStmt b, toX c with
+    | some (some b), some (some c) => some (some (.doWhile b c))
+    | some _, some _ => some none
+    | _, _ => none
+  | .list [.atom "switch", c, b] =>
+    match toX c, toStmt b with
+    | some (some c), some (some b) => some (some (.switchS c b))
+    | some _, some _ => some none
+    | _, _ => none
+  | .list [.atom "break"] => some (some .breakS)
+  | .list [.atom "continue"] => some (some .continueS)
+  | .list [.atom "discard"] => some (some .discardS)
+  | .list [.atom "ret"] => some (some (.ret none))
+  | .list [.atom "ret", e] => rdMap (fun e => Kind.ret (some e)) (toX e)
+  | .list [.atom "case", v, n] =>
+    match toX v, toStmt n with
+    | some (some v), some (some n) => some (some (.caseS v n))
+    | some _, some _ => some none
+    | _, _ => none
+  | .list [.atom "default", n] => rdMap Kind.defaultS (toStmt n)
+  | .list (.atom "ambiguous" :: _) => some none
+  | _ => none
+partial def toStmts : List SExp → Rd Stmts
+  | [] => some (some .nil)
+  | x :: r =>
+    match toStmt x, toStmts r with
+    | some (some s), some (some l) => some (some (.cons s l))
+    | some _, some _ => some none
+    | _, _ => none
+end
+
+def sexpDecl : Decl → SExp
+  | .empty => .list [.atom "d-empty"]
+  | .name n => .list (.atom "d-name" :: nameAtoms n)
+  | .ptr q d => .list [.atom "d-ptr", .list (q.map fun m => .atom (modSpell m)), sexpDecl d]
+  | .ref d => .list [.atom "d-ref", sexpDecl d]
+  | .arr d e => .list [.atom "d-arr", sexpDecl d, sexpX e]
+  | .arrN d => .list [.atom "d-arrn", sexpDecl d]
+
+mutual
+partial def sexpInit : Init → SExp
+  | .expr e => sexpX e
+  | .agg l => .list (.atom "agg" :: sexpInits l)
+partial def sexpInits : Inits → List SExp
+  | .nil => []
+  | .cons i r => sexpInit i :: sexpInits r
+end
+
+def sexpVarDef (v : VarDef) : SExp :=
+  .list (.atom "vd" :: sexpTy (.mk v.mods v.name v.targs .empty) ::
+    v.defs.map fun d => .list [.atom "idecl", sexpDecl d.decl,
+      match d.init with
+      | none => .list [.atom "noinit"]
+      | some i => .list [.atom "init", sexpInit i]])
+
+def sexpAttr (a : Attr) : SExp :=
+  .list [.atom "attr", .atom (if a.double then "2" else "1"), .list (.atom "n" :: nameAtoms a.name), .list (sexpXArgs a.args)]
+
+def sexpOptE : Option XExpr → SExp
+  | none => .list [.atom "none"]
+  | some e => .list [.atom "some", sexpX e]
+
+mutual
+partial def sexpStmt : Stmt → SExp
+  | .mk attrs k => .list [.atom "st", .list (attrs.map sexpAttr), sexpKind k]
+partial def sexpKind : Kind → SExp
+  | .empty => .list [.atom "empty"]
+  | .expr e => .list [.atom "expr", sexpX e]
+  | .var v => .list [.atom "var", sexpVarDef v]
+  | .block b => .list (.atom "block" :: sexpStmts b)
+  | .ifS c t => .list [.atom "if", sexpX c, sexpStmt t]
+  | .ifElse c t e => .list [.atom "ifelse", sexpX c, sexpStmt t, sexpStmt e]
+  | .forS i c n b =>
+    .list [.atom "for",
+      (match i with
+       | .empty => .list [.atom "none"]
+       | .expr e => .list [.atom "e", sexpX e]
+       | .decl v => .list [.atom "d", sexpVarDef v]),
+      sexpOptE c, sexpOptE n, sexpStmt b]
+  | .whileS c b => .list [.atom "while", sexpX c, sexpStmt b]
+  | .doWhile b c => .list [.atom "do", sexpStmt b, sexpX c]
+  | .switchS c b => .list [.atom "switch", sexpX c, sexpStmt b]
+  | .breakS => .list [.atom "break"]
+  | .continueS => .list [.atom "continue"]
+  | .discardS => .list [.atom "discard"]
+  | .ret none => .list [.atom "ret"]
+  | .ret (some e) => .list [.atom "ret", sexpX e]
+  | .caseS v n => .list [.atom "case", sexpX v, sexpStmt n]
+  | .defaultS n => .list [.atom "default", sexpStmt n]
+partial def sexpStmts : Stmts → List SExp
+  | .nil => []
+  | .cons s r => sexpStmt s :: sexpStmts r
+end
+
+-- type names of a statement (the harness's `type_names_stmt`)
+def typeNamesDecl : Decl → List String
+  | .empty => []
+  | .name _ => []
+  | .ptr _ d => typeNamesDecl d
+  | .ref d => typeNamesDecl d
+  | .arr d e => typeNamesDecl d ++ typeNamesX e
+  | .arrN d => typeNamesDecl d
+
+mutual
+partial def typeNamesInit : Init → List String
+  | .expr e => typeNamesX e
+  | .agg l => typeNamesInits l
+partial def typeNamesInits : Inits → List String
+  | .nil => []
+  | .cons i r => typeNamesInit i ++ typeNamesInits r
+end
+
+def typeNamesVarDef (v : VarDef) : List String :=
+  v.name :: typeNamesTArgs v.targs ++ (v.defs.map fun d =>
+    typeNamesDecl d.decl ++ (match d.init with | none => [] | some i => typeNamesInit i)).flatten
+
+def typeNamesOpt : Option XExpr → List String
+  | none => []
+  | some e => typeNamesX e
+
+mutual
+partial def typeNamesStmt : Stmt → List String
+  | .mk attrs k => (attrs.map fun a => typeNamesArgs a.args).flatten ++ typeNamesKind k
+partial def typeNamesKind : Kind → List String
+  | .expr e => typeNamesX e
+  | .var v => typeNamesVarDef v
+  | .block b => typeNamesStmts b
+  | .ifS c t => typeNamesX c ++ typeNamesStmt t
+  | .ifElse c t e => typeNamesX c ++ typeNamesStmt t ++ typeNamesStmt e
+  | .forS i c n b =>
+    (match i with | .empty => [] | .expr e => typeNamesX e | .decl v => typeNamesVarDef v) ++
+      typeNamesOpt c ++ typeNamesOpt n ++ typeNamesStmt b
+  | .whileS c b => typeNamesX c ++ typeNamesStmt b
+  | .doWhile b c => typeNamesStmt b ++ typeNamesX c
+  | .switchS c b => typeNamesX c ++ typeNamesStmt b
+  | .ret (some e) => typeNamesX e
+  | .caseS v n => typeNamesX v ++ typeNamesStmt n
+  | .defaultS n => typeNamesStmt n
+  | _ => []
+partial def typeNamesStmts : Stmts → List String
+  | .nil => []
+  | .cons s r => typeNamesStmt s ++ typeNamesStmts r
+end
+
+/-- every run of spaces collapsed, none at the ends -/
+def collapseSp (ps : List Piece) : List Piece :=
+  let rec go : List Piece → Bool → List Piece
+    | [], _ => []
+    | .sp :: r, true => go r true
+    | .sp :: r, false => .sp :: go r true
+    | p :: r, _ => p :: go r false
+  let trimmed := go ps true
+  (trimmed.reverse.dropWhile fun | .sp => true | _ => false).reverse
+
+def handleSt (s : Stmt) : String :=
+  let pieces := fmtStmt s
+  let ts := toks pieces
+  if pieces.any (fun p => match p with | .t (.lit _) "?" => true | _ => false) then "unsupported literal" else
+  if gluedAmp pieces then "unsupported reference to reference" else
+  if attrShape ts then "unsupported attribute position in a declarator" else
+  let text := render (collapseSp pieces)
+  if gluedIntPeriod pieces || ts.any (fun t => match t with | .lit l => litTooLarge l | _ => false)
+  then text ++ " ==> ERR:lex" else
+  let W := typeNamesStmt s
+  -- the body of `void f() { … }`: the statement is followed by the closing brace
+  match parseStmt W (40 * ts.length + 80) (ts ++ [.p .RightBrace]) with
+  | .ok s' [.p .RightBrace] => text ++ " ==> " ++ (alignS (sexpStmt s) (sexpStmt s')).show
+  | .ok _ _ => text ++ " ==> ERR:shape"
+  | .fail => text ++ " ==> ERR:parse"
+  | .panic => text ++ " ==> PANIC"
+
 /-- answer of the first model (`Model/Format.lean` + `Model/Parse.lean`), `none` where it does not apply -/
 def handleRtCore (ctx : String) (e : Expr) : Option String :=
   if !e.supported then some "unsupported literal" else
@@ -490,6 +786,14 @@ def handle (op : String) (args : List String) : String :=
           | some core => if core == full then full else "MODELS-DIFFER core=[" ++ core ++ "] full=[" ++ full ++ "]"
           | none => full
         | _ => full
+  | "C09.st", [tree] =>
+    match readSExp (sexpTokens tree) with
+    | none => "bad-request"
+    | some sx =>
+      match toStmt sx with
+      | none => "bad-request"
+      | some none => "unsupported node kind"
+      | some (some st) => handleSt st
   | _, _ => "unsupported-op"
 
 end RsslVerif.Driver.C09
